@@ -152,7 +152,7 @@ type Spec struct {
 	Suite     tlsref.Suite
 	Outer     *tlsref.Hello // with a placeholder extension of type ExtECH at EchIdx
 	EchIdx    int
-	EncInner  []tlsref.Ext // extension list of EncodedClientHelloInner (may contain ech_outer_extensions)
+	EncInner  []tlsref.Ext  // extension list of EncodedClientHelloInner (may contain ech_outer_extensions)
 	InnerBase *tlsref.Hello // version/random/ciphers/compression of the inner hello (exts ignored)
 	Padding   []byte
 	EphLabel  string
